@@ -400,3 +400,93 @@ func ZZ_C13_BIG() {
 	zz.Assert("bytes-are-the-sent-bytes-in-order", ok)
 	zz.Assert("len-is-buffered-minus-consumed", lenOK)
 }
+
+// zzChunkReader hands out its data in reads of at most step bytes, then io.EOF.
+type zzChunkReader struct {
+	data []byte
+	step int
+}
+
+func (r *zzChunkReader) Read(p []byte) (int, error) {
+	if len(r.data) == 0 {
+		return 0, io.EOF
+	}
+	n := r.step
+	if n > len(r.data) {
+		n = len(r.data)
+	}
+	if n > len(p) {
+		n = len(p)
+	}
+	copy(p, r.data[:n])
+	r.data = r.data[n:]
+	return n, nil
+}
+
+// ZZ_C13_RF: writer side with ReadFrom (the path a response body stream takes) on an underlying
+// connection that is not an io.ReaderFrom: pending output of a size around the node sizes
+// (1, 1 KiB, 4 KiB, 8 KiB, and 9000 = a large node with spare room), written by Malloc or
+// WriteBinary, then ReadFrom of a source of a size in the same windows handed out whole or in
+// small reads, then an optional further Malloc, then Flush: the peer receives exactly the
+// concatenation, in order.
+func ZZ_C13_RF() {
+	nc := zz.NewNetConn(nil)
+	c := newConn(nc, defaultMallocSize).(*Conn)
+	var want []byte
+	ok := true
+	size := func(name string) int {
+		if zz.Choose(name+"-large", 2) == 1 {
+			return 9000
+		}
+		return zzSize(name)
+	}
+	switch zz.Choose("pending", 3) {
+	case 1:
+		n := size("malloc")
+		buf, err := c.Malloc(n)
+		if err != nil || len(buf) != n {
+			ok = false
+			break
+		}
+		for j := range buf {
+			buf[j] = byte(7 + j)
+		}
+		want = append(want, buf...)
+	case 2:
+		n := size("writebinary")
+		b := make([]byte, n)
+		for j := range b {
+			b[j] = byte(3 * j)
+		}
+		if m, err := c.WriteBinary(b); err != nil || m != n {
+			ok = false
+		}
+		want = append(want, b...)
+	}
+	n := size("source")
+	src := make([]byte, n)
+	for j := range src {
+		src[j] = byte(101 + 5*j)
+	}
+	step := []int{1 << 20, 1000}[zz.Choose("smallreads", 2)]
+	m, err := c.ReadFrom(&zzChunkReader{data: src, step: step})
+	if err != nil || m != int64(n) {
+		ok = false
+	}
+	want = append(want, src...)
+	if zz.Choose("then-malloc", 2) == 1 {
+		buf, err := c.Malloc(3)
+		if err != nil || len(buf) != 3 {
+			ok = false
+		} else {
+			copy(buf, "end")
+			want = append(want, "end"...)
+		}
+	}
+	if c.Flush() != nil {
+		ok = false
+	}
+	zz.Cover("reached-assert", true)
+	zz.Assert("no-error", ok)
+	zz.Assert("peer-received-concatenation-in-order", bytes.Equal(nc.Out, want))
+}
